@@ -5,6 +5,11 @@ V = os.path.dirname(os.path.dirname(os.path.abspath(__file__)))
 props = [json.loads(l) for l in open(os.path.join(V, "properties.jsonl"))]
 
 CLAIMS = {
+ "C18": dict(
+   text="Lean 4 theorems over the model of the SQL text the shell builds: C18_literal_roundtrip (for EVERY text - quotes, percent signs, backslashes, semicolons, `--`, non-ASCII - the literal built by quote doubling is read back by SQLite's string-literal lexer as exactly that text, and the lexer stops exactly at the closing quote: injection-freedom of each spliced field), C18_insert_values (the VALUES part of add_raw's INSERT parses back to exactly (trimmed line, session id, dir:<dir>|) - all three fields have gone through that encoding since a fix: commit), C18_delete_exact, C18_add_appends. Tied to /repo by process-level sequences: add / list-with-pattern / delete, each operation run by its own cicada process on one shared database, in working directories named with quotes, percent signs, blanks, backslashes; the table is read back with an independent SQLite client (python sqlite3) and compared with the Lean model (rows, rowids, order, LIKE listing results) and the spec.",
+   note="Trusted: Lean kernel; SQLite itself and rusqlite (only the string-literal lexing and LIKE are modelled; the model's rowid rule and LIKE are validated against SQLite by the differential); the prompt's record rule (leading blank, immediate repeat) is modelled (shouldRecord) but only exercised by pty sessions when built; durability is observed (separate processes), not proved.",
+   technique="Lean 4 proof (induction over the text through the literal lexer) + model/implementation correspondence with an independent SQLite client",
+   design="DESIGN.md §6 C18"),
  "C06": dict(
    text="Lean model of the job table (insert_job, remove_pid_from_job, stopped/continued marking), of wait_fg_job over a queue of kernel notifications and of the prompt-time poll (handle_sigchld parking + try_wait_bg_jobs), and an abstract world of running/stopped/gone processes as reference. Theorems: a job launched under a new group id takes the smallest unused id (C06_new_id_least_unused), parking loses no exit notification (C06_park_keeps_exits), the foreground wait returns exactly at the notification completing its count and leaves the rest pending (C06_wait_returns_on_count); three finding classes are refuted against the world by kernel-checked witnesses. Tied to /repo by replaying 30 000 random histories (thorough 600 000; <= 3 jobs, <= 3 processes, non-monotone pids, stop/continue cycles ending in exit/kill, waits and polls at random delivery points) on the real Shell/jobc/signals code through scripted kernel notifications, compared with the model after every operation and with the world at the end.",
    note="Trusted: Lean kernel; hand-written model; which notifications Linux can deliver is the generator's assumption; handle_sigchld's own four-way mapping is replaced by the hook's park_event in-process (exercised for real only by pty sessions); the refinement table = world on the finding-free domain is checked by the stream, not yet a theorem.",
